@@ -167,7 +167,46 @@ variable {K : Type} [LE K] [LT K] [Add K] [Sub K] [Mul K] [Div K] [Neg K] [OfNat
 @[reducible] def keySector (rin rout lo hi r t : K) : Prop :=
   ((r ≤ rin ∧ ¬ r ≤ rout) ∨ (¬ r ≤ rin ∧ r ≤ rout)) ∧ (t > lo ∧ t < hi)
 
+/-- the angular mask of one keystone INCLUDING the two wrap-around branches of the source (`pi` stands for `np.pi`,
+`t = arctan2(y, x) ∈ [−π, π]`): interval straddling `π` → also `t < hi − 2π`; interval beyond `π` → shifted by `−2π` -/
+@[reducible] def keyAng (pi lo hi t : K) : Prop :=
+  ((lo < pi ∧ hi > pi) ∧ ((t > lo ∧ t < hi) ∨ t < hi - 2 * pi)) ∨
+  (¬ (lo < pi ∧ hi > pi) ∧
+    (((lo ≥ pi ∧ hi > pi) ∧ (t > lo - 2 * pi ∧ t < hi - 2 * pi)) ∨
+     (¬ (lo ≥ pi ∧ hi > pi) ∧ (t > lo ∧ t < hi))))
+
+/-- a whole keystone segment mask, `arc & ang_mask` with the wrap-around branches -/
+@[reducible] def keySegment (pi rin rout lo hi r t : K) : Prop :=
+  ((r ≤ rin ∧ ¬ r ≤ rout) ∨ (¬ r ≤ rin ∧ r ≤ rout)) ∧ keyAng pi lo hi t
+
 end prims
+
+/-! ## first-claim ownership of samples (`local_mask &= ~mask[local_window]; mask[local_window] |= local_mask`) -/
+
+/-- one segment at one sample: `prev` = the aperture mask so far, `m` = the segment's polygon mask;
+returns (the local mask stored for the segment, the aperture mask afterwards) -/
+def claimStep (prev m : Bool) : Bool × Bool :=
+  let l := m && !prev
+  (l, prev || l)
+
+/-- all segments in construction order at one sample: the stored local-mask values and the final aperture mask -/
+def claims (step : Bool → Bool → Bool × Bool) : Bool → List Bool → List Bool × Bool
+  | prev, [] => ([], prev)
+  | prev, m :: ms =>
+      let r := step prev m
+      let rest := claims step r.2 ms
+      (r.1 :: rest.1, rest.2)
+
+section keyangles
+variable {K : Type} [Add K] [Sub K] [Mul K] [Div K] [Neg K] [OfNat K 0] [OfNat K 1] [OfNat K 2] [OfNat K 360]
+/-- start angle of keystone `k` of a ring of `nseg` keystones rotated by `rot` degrees: `radians(k·(360/nseg) + rot) − π`
+(`rad` stands for `np.radians`) -/
+def keyAngle (rad : K → K) (pi k nseg rot : K) : K := rad (k * (360 / nseg) + rot) - pi
+/-- angular width of one keystone -/
+def keyArc (rad : K → K) (nseg : K) : K := rad (360 / nseg)
+/-- `rotation_per_ring = None` means one arc -/
+def keyDefaultRot (nseg : K) : K := 360 / nseg
+end keyangles
 
 section keyradii
 variable {K : Type} [Add K]
